@@ -3,7 +3,7 @@
     balanced, hence (C03_explicitH_crash_iff) _explicit_h returns.  Generic facts about [components] (C03_Model): they are
     duplicate-free, pairwise disjoint and every group lies inside one of them (C03 proves the converse direction only). *)
 From Coq Require Import List NArith ZArith Bool Arith Lia.
-From SK Require Import lib.Tok lib.LGraph model.C03_Model proof.C03_Proof proof.C03_Spec proof.C03_ExplicitH proof.C03_Wiring proof.C03_WiringCount proof.C03_ExplicitTotal.
+From SK Require Import lib.Tok lib.LGraph model.C03_Model model.C03_Order proof.C03_Ord proof.C03_Proof proof.C03_Spec proof.C03_ExplicitH proof.C03_Wiring proof.C03_WiringCount proof.C03_ExplicitTotal.
 Import ListNotations.
 Local Open Scope Z_scope.
 
@@ -254,4 +254,8 @@ Section Criterion.
   (** hence _explicit_h returns *)
   Theorem explicit_h_total : explicit_h T <> None.
   Proof. intros E. apply explicit_h_crash_iff in E. rewrite balanced_components in E. discriminate. Qed.
+  (** ... in whatever order it visits the atoms of a group (the code iterates over a Python set) *)
+  Theorem explicit_h_ord_total (ord : list N -> list N) :
+    (forall l x, In x (ord l) <-> In x l) -> (forall l, NoDup l -> NoDup (ord l)) -> explicit_h_ord ord T <> None.
+  Proof. intros O1 O2 E. apply (explicit_h_ord_crash_iff ord O1 O2) in E. rewrite balanced_components in E. discriminate. Qed.
 End Criterion.
